@@ -178,6 +178,11 @@ func runCached(root string, seg int64, opsN []string) (*runner, error) {
 func doCorrupt(t *task, res *result, progress func()) {
 	root := workerScratch()
 	r, err := runCached(root, t.Seg, t.Ops)
+	if _, ok := err.(*apiError); ok {
+		// reported by the crash task of the same history
+		res.Skipped = false
+		return
+	}
 	if err != nil {
 		res.Err = "history " + histLabel(t) + ": " + err.Error()
 		return
